@@ -168,6 +168,36 @@ func (e *Env) hostileStrings(newGroup func(*c03group) int, emit func(c03exp)) {
 					t[pos] = ""
 					emit(c03exp{s: join(t), lang: lang, class: "empty-token", group: -1})
 				}
+				// tolerant-lookup mutants: unique prefixes, punctuation, near misses
+				cut := func(x string, k int) string {
+					rs := []rune(x)
+					if len(rs) > k {
+						rs = rs[:k]
+					}
+					return string(rs)
+				}
+				t4 := make([]string, n)
+				for i := range w {
+					t4[i] = cut(w[i], 4)
+				}
+				emit(c03exp{s: join(t4), lang: lang, class: "all-words-cut-to-4-letters", group: -1})
+				for _, pos := range []int{0, r.Intn(n), n - 1} {
+					t := append([]string(nil), w...)
+					t[pos] = cut(w[pos], 4)
+					emit(c03exp{s: join(t), lang: lang, class: "one-word-cut-to-4-letters", group: -1})
+					t[pos] = cut(w[pos], 3)
+					emit(c03exp{s: join(t), lang: lang, class: "one-word-cut-to-3-letters", group: -1})
+					for _, pc := range []string{",", ".", ";", "-", "'", "\"", "!", "\u200b", "\u00ad", "\ufeff", "1"} {
+						t[pos] = w[pos] + pc
+						emit(c03exp{s: join(t), lang: lang, class: "punctuation-or-invisible-suffix", group: -1})
+						t[pos] = pc + w[pos]
+						emit(c03exp{s: join(t), lang: lang, class: "punctuation-or-invisible-prefix", group: -1})
+					}
+					t[pos] = w[pos] + w[pos]
+					emit(c03exp{s: join(t), lang: lang, class: "doubled-word-token", group: -1})
+					t[pos] = strings.ToLower(strings.ToUpper(w[pos])) + "\u0301"
+					emit(c03exp{s: join(t), lang: lang, class: "extra-combining-mark", group: -1})
+				}
 				base := join(w)
 				emit(c03exp{s: strings.ToUpper(base), lang: lang, class: "upper-case-sentence", group: -1})
 				for _, ws := range []string{" ", "\t", "\n", "\u3000", "\u00a0", "\u2003", "\r\n", "  "} {
@@ -210,6 +240,31 @@ func (e *Env) hostileStrings(newGroup func(*c03group) int, emit func(c03exp)) {
 				}
 			}
 			_ = si
+		}
+	}
+	// every list word of every language, damaged by an affix, inside an otherwise valid
+	// sentence (a tolerant lookup — prefix match, trimming, packing — would accept it)
+	for lang := 0; lang < ref.NLang; lang++ {
+		r := rng.New(e.Seed, "C03-affix-"+itoa(lang))
+		for i := 0; i < 2048; i++ {
+			size := ref.EntSizes[i%5]
+			n := size * 3 / 4
+			first := make([]int, n-1)
+			for k := range first {
+				first[k] = r.Intn(2048)
+			}
+			pos := i % (n - 1)
+			first[pos] = i
+			idx := ref.Indices(entropyFromIndices(size, first, r.Intn(1<<uint(11-size/4))))
+			w := make([]string, n)
+			for k, v := range idx {
+				w[k] = m.List[lang][v]
+			}
+			orig := w[pos]
+			for _, d := range []string{orig + "s", orig + "\x00", orig + "xyz", "z" + orig, orig + orig} {
+				w[pos] = d
+				emit(c03exp{s: join(w), lang: lang, class: "every-word-with-affix", group: -1})
+			}
 		}
 	}
 	// fixed oddities, every language
